@@ -2952,6 +2952,59 @@ def ssa_straightline(fnode, counter):
     return changed
 
 
+
+def propagate_name_aliases(fnode):
+    """a = b   with a bound exactly once, b a parameter that is never re-bound or a local bound exactly once, and the copy made
+    after b's binding in the same or an enclosing statement list: a is another name for the same object; its reads become reads of b"""
+    a_ = fnode.args
+    params = {p.arg for p in a_.posonlyargs + a_.args + a_.kwonlyargs}
+    stores = {}
+    for x in ast.walk(fnode):
+        if isinstance(x, ast.Name) and isinstance(x.ctx, (ast.Store, ast.Del)):
+            stores[x.id] = stores.get(x.id, 0) + 1
+        elif isinstance(x, (ast.Global, ast.Nonlocal)):
+            for nm in x.names:
+                stores[nm] = stores.get(nm, 0) + 2
+    done = False
+
+    def scan(stmts, bound):
+        nonlocal done
+        bound = set(bound)
+        for st in list(stmts):
+            if isinstance(st, ast.Assign) and len(st.targets) == 1 and isinstance(st.targets[0], ast.Name) and isinstance(st.value, ast.Name):
+                a, b = st.targets[0].id, st.value.id
+                if a != b and stores.get(a) == 1 and a not in params and ((b in params and stores.get(b, 0) == 0) or (stores.get(b) == 1 and b in bound)):
+                    for x in ast.walk(fnode):
+                        if isinstance(x, ast.Name) and x.id == a and isinstance(x.ctx, ast.Load):
+                            x.id = b
+                    stmts.remove(st)
+                    done = True
+                    continue
+            for x in ast.walk(st) if not isinstance(st, (ast.FunctionDef, ast.AsyncFunctionDef, ast.ClassDef)) else []:
+                pass
+            if isinstance(st, (ast.If, ast.For, ast.While, ast.With, ast.Try)):
+                for fld in ("body", "orelse", "finalbody"):
+                    sub = getattr(st, fld, None)
+                    if isinstance(sub, list) and sub and isinstance(sub[0], ast.stmt):
+                        scan(sub, bound)
+                        if not sub:
+                            sub.append(ast.Pass())
+            # names bound by this statement at this level (unconditionally for plain assignments)
+            if isinstance(st, ast.Assign):
+                for t in st.targets:
+                    for y in ast.walk(t):
+                        if isinstance(y, ast.Name):
+                            bound.add(y.id)
+            elif isinstance(st, (ast.With, ast.AsyncWith)):
+                for y in ast.walk(st):
+                    if isinstance(y, ast.Name) and isinstance(y.ctx, ast.Store) and stores.get(y.id) == 1 and any(y in ast.walk(b_) for b_ in st.body if isinstance(b_, ast.Assign) and b_ in st.body):
+                        bound.add(y.id)
+    scan(fnode.body, set())
+    if done:
+        ast.fix_missing_locations(fnode)
+    return done
+
+
 # --------------------------------------------------------------------------------------------------- deferred raise
 def undefer_raises(stmts):
     """problem = None; if A: problem = M1 [elif B: problem = M2 ...]; if problem is not None: raise E(problem)
@@ -3174,6 +3227,9 @@ def partial_evaluate(repo, max_rounds=8):
             if (steps or q in getattr(repo, "inlined", {})) and propagate_readonly_displays(repo, f):
                 ch = True
                 steps.append("readonly-displays")
+            if (steps or q in getattr(repo, "inlined", {})) and propagate_name_aliases(f.node):
+                ch = True
+                steps.append("name-aliases")
             if steps and ssa_straightline(f.node, counter):
                 ch = True
                 steps.append("ssa")
